@@ -204,7 +204,10 @@ def explore_and_discharge(run, tier, sess, thunk, fq, prefix):
         prs = sess.explore(thunk)
     except Unsupported as ex:
         run.add(prefix + '/supported', 'unsupported', '', 0, fq, str(ex))
-        run.undecide(prefix + '/supported', str(ex))
+        if hasattr(run, 'pending_failures'):
+            run.pending_failures.append((prefix + '/supported', 'unsupported', str(ex)))      # the caller's refute search decides
+        else:
+            run.undecide(prefix + '/supported', str(ex))
         return False
     agg = {}
     completed = 0
@@ -460,6 +463,12 @@ def finish_failures(run, pid, budget=None):
     run.bounded.append({'what': 'bounded native search of event streams against the pairing specification (refute mode only)',
                         'streams_tried': out.get('tried'), 'bound': out.get('bound'), 'found': bool(out.get('found'))})
     found = out.get('found')
+    if not found and run.pending_failures:
+        # the failure may need a history across parser objects (class-level or module-level state)
+        out2 = native({'kind': 'api_history_case'}, timeout=900)
+        run.bounded.append({'what': 'native API-history search (refute mode only)', 'found': bool(out2.get('violates'))})
+        if out2.get('violates'):
+            found = dict(out2, request={'kind': 'api_history_case'})
     if found and not run.pending_failures:
         run.pending_failures.append(('%s/bounded-search' % pid, 'refuted', 'native search'))
         run.add('%s/bounded-search' % pid, 'refuted', 'native bounded search', 0, MOD + ':TracesParser.feed')
